@@ -3,7 +3,6 @@ package main
 import (
 	"fmt"
 	"go/token"
-	"go/types"
 	"strings"
 
 	"golang.org/x/tools/go/ssa"
@@ -132,25 +131,33 @@ func gcsWriterRule(p *Program, r *Report, rule string) {
 		return cal != nil && cal.Name() == name && strings.Contains(cal.String(), "bstream")
 	}
 	var bitTrue, bitFalse, bits, other []*ssa.Call
-	for _, b := range bld.Blocks {
-		for _, in := range b.Instrs {
-			c, ok := in.(*ssa.Call)
-			if !ok {
-				continue
-			}
-			switch {
-			case isW(c, "WriteBit"):
-				if v, ok := constBool(c.Call.Args[1]); ok && v {
-					bitTrue = append(bitTrue, c)
-				} else if ok {
-					bitFalse = append(bitFalse, c)
-				} else {
+	var cands []*ssa.Function
+	for _, fn := range p.Reachable([]*ssa.Function{bld}) {
+		if fn.Pkg == bld.Pkg || (fn.Parent() != nil && fn.Parent().Pkg == bld.Pkg) {
+			cands = append(cands, fn)
+		}
+	}
+	for _, fn := range cands {
+		for _, b := range fn.Blocks {
+			for _, in := range b.Instrs {
+				c, ok := in.(*ssa.Call)
+				if !ok {
+					continue
+				}
+				switch {
+				case isW(c, "WriteBit"):
+					if v, ok := constBool(c.Call.Args[1]); ok && v {
+						bitTrue = append(bitTrue, c)
+					} else if ok {
+						bitFalse = append(bitFalse, c)
+					} else {
+						other = append(other, c)
+					}
+				case isW(c, "WriteBits"):
+					bits = append(bits, c)
+				case isW(c, "WriteByte"), isW(c, "WriteUint64"), isW(c, "WriteBytes"):
 					other = append(other, c)
 				}
-			case isW(c, "WriteBits"):
-				bits = append(bits, c)
-			case isW(c, "WriteByte"), isW(c, "WriteUint64"), isW(c, "WriteBytes"):
-				other = append(other, c)
 			}
 		}
 	}
@@ -211,15 +218,22 @@ func gcsWriterRule(p *Program, r *Report, rule string) {
 	}
 	// quotient and remainder split the same delta at P
 	if okW {
-		var pf *types.Var
-		cnt := stripIntConv(rem.Call.Args[2])
-		if f, _, ok := fieldLoad(cnt); ok {
-			pf = f
+		// P: the filter's P field or a parameter carrying it; identified by a key so that re-loads compare equal
+		pkey := func(v ssa.Value) string {
+			v = stripIntConv(v)
+			if f, _, ok := fieldLoad(v); ok {
+				return "field " + f.Name()
+			}
+			if pa, ok := v.(*ssa.Parameter); ok {
+				return "param " + pa.Name()
+			}
+			return ""
 		}
+		pf := pkey(rem.Call.Args[2])
 		mask, ok := rem.Call.Args[1].(*ssa.BinOp)
 		var delta ssa.Value
-		if pf == nil {
-			okW, how = false, "the remainder width is not the filter's P field"
+		if pf == "" {
+			okW, how = false, "the remainder width is not the filter's P (field or parameter)"
 		} else if !ok || mask.Op != token.AND {
 			okW, how = false, "the remainder is not delta & (2^P − 1)"
 		} else {
@@ -228,7 +242,7 @@ func gcsWriterRule(p *Program, r *Report, rule string) {
 					if k, isK := constInt(m.Y); isK && k == 1 {
 						if sh, ok := m.X.(*ssa.BinOp); ok && sh.Op == token.SHL {
 							if k1, isK := constInt(sh.X); isK && k1 == 1 {
-								if f, _, ok := fieldLoad(stripIntConv(sh.Y)); ok && f == pf {
+								if pkey(sh.Y) == pf {
 									delta = pr[0]
 								}
 							}
@@ -251,7 +265,7 @@ func gcsWriterRule(p *Program, r *Report, rule string) {
 			sh, ok := init.(*ssa.BinOp)
 			if !ok || sh.Op != token.SHR {
 				okW, how = false, "the quotient is not delta >> P"
-			} else if f, _, ok := fieldLoad(stripIntConv(sh.Y)); !ok || f != pf {
+			} else if pkey(sh.Y) != pf {
 				okW, how = false, "the quotient is not shifted by the filter's P"
 			} else {
 				x := sh.X
